@@ -258,6 +258,59 @@ func C17(tier common.Tier) int {
 		}
 	})
 
+	// (2b) every diagnostic line of every file suppressed at once (`// @ignore ALL` appended to each): the packages then
+	// hold markers in several files; in-process under both parse orders of the loader, and on the real binary (whose
+	// loader parses files concurrently) three times. Only the once-per-file reports may move to their next use.
+	{
+		all := base.Clone()
+		ignored := map[string]bool{}
+		for _, d := range baseDiags {
+			k := fmt.Sprintf("%d:%d", d.file, d.line)
+			if !ignored[k] {
+				ignored[k] = true
+				all.Files[d.file].Lines[d.line-1].Text += " // @ignore ALL"
+			}
+		}
+		dummy := &e1.IgVariant{Base: base, File: -1}
+		want := expectedIgScopes(base, baseDiags, dummy, []string{"ALL"}, func(fi, vl int) bool { return ignored[fmt.Sprintf("%d:%d", fi, vl)] })
+		keysOf := func(ds []prog.Diag) []string {
+			var gk []string
+			for _, g := range ds {
+				for fi, f := range all.Files {
+					if f.Pkg+"/"+f.Name == g.File {
+						gk = append(gk, fmt.Sprintf("%s:%d:%s", all.Files[fi].Name+"@"+all.Files[fi].Pkg, g.Line, g.Code))
+					}
+				}
+			}
+			sort.Strings(gk)
+			return gk
+		}
+		report := func(where string, gk []string) {
+			run.State(1, strings.Join(gk, "|"), "ignore-all-at-once|"+where)
+			if strings.Join(gk, "|") != strings.Join(want, "|") {
+				missing, extra := diffKeys(want, gk)
+				run.Report(common.Cex{Sig: fmt.Sprintf("own-code-ignore-all-at-once|where=%s|nmissing=%d|nextra=%d", strings.SplitN(where, "#", 2)[0], len(missing), len(extra)),
+					Summary: fmt.Sprintf("with `// @ignore ALL` appended to every diagnostic line of every file (%s): should remain but vanished %v; should vanish but still reported %v", where, missing, extra)})
+			}
+		}
+		for _, rev := range []bool{false, true} {
+			ld, err := prog.LoadOrder(all.Program(), rev)
+			if err != nil {
+				common.Fatalf("%v", err)
+			}
+			res := prog.Analyze(ld, prog.Opts{})
+			report(fmt.Sprintf("in-process/reverse-parse=%v", rev), keysOf(res.Diags))
+		}
+		adir := root + "/allig"
+		drv.WriteModule(adir, all.Program())
+		for rep := 0; rep < 3; rep++ {
+			o := drv.Run(drv.Req{Driver: drv.Standalone, Dir: adir})
+			report(fmt.Sprintf("standalone#%d", rep), keysOf(o.Diags))
+		}
+		o := drv.Run(drv.Req{Driver: drv.Vet, Dir: adir})
+		report("vet", keysOf(o.Diags))
+	}
+
 	// (3) exit status in text mode
 	clean := &prog.Program{Pkgs: []prog.Pkg{{Path: "ex.com/m/q", Files: []prog.File{{Name: "q.go", Src: "package q\n\ntype T struct{ F int }\n\nfunc f(x *T) { x.F = 1 }\n"}}}}}
 	one := &prog.Program{Pkgs: []prog.Pkg{{Path: "ex.com/m/q", Files: []prog.File{{Name: "q.go", Src: "package q\n\n// @immutable\ntype T struct{ F int }\n\nfunc f(x *T) {\n\tx.F = 1\n}\n"}}}}}
